@@ -82,6 +82,9 @@ Definition blacklisted (cfg : config) (name basename : str) : bool :=
 (* The walk callback.  Result: (the name is sent on the channel, filepath.SkipDir is returned). *)
 Definition callback (cfg : config) (prefix name : str) (isDir : bool) : bool * bool :=
   let basename := base name in
+  if negb isDir
+  then (is_build_file cfg basename, false)      (* only directories are ever skipped *)
+  else
   if str_eqb basename out_dir
      || (isDir && has_prefix basename (s FindBuildFiles.hidden_prefix)
                && negb (str_eqb name (s FindBuildFiles.root_exception)))
